@@ -285,6 +285,10 @@ func GenSrvHistory(r *rand.Rand, cfg *SrvGenCfg) []SEv {
 			case 0:
 				req, cls := genOps(c, 1)
 				req.Params = &spb.SessionParameters{Redundancy: spb.SessionParameters_SINGLE_PRIMARY, Persistence: spb.SessionParameters_PRESERVE}
+				if r.IntN(2) == 0 {
+					// all three fields at once
+					req.ElectionId = latticeID(r)
+				}
 				evs = append(evs, SEv{Kind: "msg", C: c, MsgKind: "multi", Req: req, Cls: cls})
 			case 1:
 				evs = append(evs, SEv{Kind: "msg", C: c, MsgKind: "multi", Req: &spb.ModifyRequest{Params: &spb.SessionParameters{Redundancy: spb.SessionParameters_SINGLE_PRIMARY, Persistence: spb.SessionParameters_PRESERVE}, ElectionId: latticeID(r)}})
